@@ -16,6 +16,8 @@ import (
 	"fmt"
 	"os"
 	"strconv"
+
+	psatoken "github.com/veraison/psatoken"
 )
 
 type propSpec struct {
@@ -30,6 +32,11 @@ type propSpec struct {
 	Assumptions  []string
 	// MustProbes must be non-zero over a thorough batch, else exit 2.
 	MustProbes []string
+}
+
+var pristineReg map[string]struct {
+	Profile psatoken.IProfile
+	JSONTag string
 }
 
 var worlds = map[string]World{}
@@ -64,6 +71,8 @@ func main() {
 	)
 	flag.Parse()
 	setAddressSpaceLimit(*aslimit)
+	// hook T3: the register as package initialisation left it, before anything else touches it
+	pristineReg = psatoken.VerifRegistrySnapshot()
 	loadKeys()
 	registerAll()
 	_ = sitesFile
